@@ -77,7 +77,7 @@ def run_component_case(c, want_jac=True):
 
 def component_suite(names, stats, tier=None, reps=None, want_jac=True, label="component", value_only=()):
     tier = tier or core.TIER
-    reps = reps if reps is not None else (3 if tier == "thorough" else 1)
+    reps = reps if reps is not None else (2 if tier == "thorough" else 1)
     for name in names:
         sp = SPECS[name]
         for (nx, ny) in gen.sizes(tier):
